@@ -20,6 +20,7 @@ PQ31 == {f \in PT31 : <<f[1][1], f[2][1], f[3][1]>> \in {<<0, 1, 9>>}}
 PT32 == {f \in [1..3 -> SeqsUpTo(IdxQ, 2)] : f[1] = <<0, 9>> /\ f[2] = <<4>> /\ f[3] \in {<<0>>, <<9>>}}
 \* replay space (quick): programs whose walks are replayed on the real SparseBitMap<1>
 PR == {f \in [1..2 -> SeqsUpTo({0, 1, 4, 9}, 2)] : Len(f[1]) = 2 /\ Len(f[2]) = 1}
+PRt == {f \in PR : f[1] \in {<<0, 9>>, <<9, 0>>, <<1, 4>>} /\ f[2] \in {<<0>>, <<9>>, <<1>>, <<4>>}}
 PRq == {f \in PR : <<f[1], f[2]>> \in {<<<<0, 9>>, <<0>>>>, <<<<9, 1>>, <<4>>>>}}
 \* liveness (small)
 PL == {f \in [1..2 -> [1..1 -> {0, 1, 9}]] : TRUE}
